@@ -5,7 +5,7 @@ import warnings
 
 from decwire import cell
 from model import build
-from project import project
+from project import node_of, project
 
 COLMAP = {
     "Component": "comp", "Type": "type", "Parent": "parent", "Rail in": "railin", "Domain": "domain",
@@ -42,10 +42,47 @@ def table_wire(df):
     return {"cols": [c for c in cols if not c.startswith("tag:")], "rows": rows, "isnone": False}
 
 
+class HarnessError(RuntimeError):
+    """an exception raised by the harness' own code (not by the library): a machinery failure, never a verdict"""
+
+
+def raised_by_harness(exc):
+    """does the innermost frame of the exception's traceback belong to the harness (and not to the library or to one
+    of its dependencies)?"""
+    import os
+    import traceback
+    tb = traceback.extract_tb(exc.__traceback__)
+    if not tb:
+        return False
+    here = os.path.dirname(os.path.abspath(__file__))
+    return os.path.dirname(os.path.abspath(tb[-1].filename)) == here
+
+
+class GeneratorReject(Exception):
+    """a component constructor refused the parameters the numeric generator produced: the generated case is dropped (and
+    counted) - what constructors must accept is C11's matter (every constructor case of MCCtor is executed there), and a
+    slip of the generator must never look like a refusal of the library"""
+
+
+GENERATOR_REJECTS = []
+
+
+def make(gen, cls, name, parents=None):
+    try:
+        return build(gen.desc(cls, name, parents) if parents is not None else gen.desc(cls, name))
+    except Exception as e:
+        if raised_by_harness(e):
+            raise HarnessError("generator: %s %s: %s: %s" % (cls, name, type(e).__name__, e)) from e
+        GENERATOR_REJECTS.append("%s: %s" % (cls, e))
+        raise GeneratorReject("%s %s: %s" % (cls, name, e)) from e
+
+
 class BuildFailure(Exception):
     """the library refused (or crashed on) a call of a construction history that the specification accepts"""
 
     def __init__(self, system, op, args, exc):
+        if raised_by_harness(exc):
+            raise HarnessError("%s%r: %s: %s" % (op, args, type(exc).__name__, exc)) from exc
         Exception.__init__(self, "%s%r: %s: %s" % (op, args, type(exc).__name__, exc))
         self.system, self.op, self.args_, self.exc = system, op, args, exc
 
@@ -60,6 +97,17 @@ class BuildFailure(Exception):
 
 
 def build_system(states, gen, rng, sysname="sys", shared=None, first="a"):
+    """build_system_once, drawing the numbers again (up to 6 times) when a constructor refused generated parameters"""
+    last = None
+    for _ in range(6):
+        try:
+            return build_system_once(states, gen, rng, sysname, shared, first)
+        except GeneratorReject as e:
+            last = e
+    raise HarnessError("the numeric generator keeps producing parameters a constructor refuses: %s" % last)
+
+
+def build_system_once(states, gen, rng, sysname="sys", shared=None, first="a"):
     """replay a SpecBuild behaviour with numeric components; returns the System.  Every call of such a behaviour
     is accepted by the specification (SysTree guards); a call the library refuses raises BuildFailure"""
     from sysloss.system import System
@@ -67,16 +115,16 @@ def build_system(states, gen, rng, sysname="sys", shared=None, first="a"):
     def resolve(s, refs):
         out = []
         for r in refs:
-            idx = s._get_index(r)
+            idx = node_of(s, r)
             out.append(s._g[idx]._params["name"] if idx != -1 else r)
         return out
 
     def apply(s, op, a):
         if op == "add_source":
-            s.add_source(build(gen.desc("Source", a["comp"]["name"])), rail=a["rail"], group=a["group"])
+            s.add_source(make(gen, "Source", a["comp"]["name"]), rail=a["rail"], group=a["group"])
         elif op == "add_comp":
             parents = resolve(s, a["refs"])
-            c = build(gen.desc(a["comp"]["cls"], a["comp"]["name"], parents))
+            c = make(gen, a["comp"]["cls"], a["comp"]["name"], parents)
             if a["aslist"] and shared is not None:
                 # the caller keeps ONE list object for the parents and uses it for several systems
                 parent = shared.setdefault(a["comp"]["name"], list(a["refs"]))
@@ -87,7 +135,7 @@ def build_system(states, gen, rng, sysname="sys", shared=None, first="a"):
             s.set_sys_phases({p["name"]: float("%.3g" % math.exp(rng.uniform(math.log(0.05), math.log(2000))))
                               for p in a["phases"]})
         elif op == "set_comp_phases":
-            idx = s._get_index(a["ref"])
+            idx = node_of(s, a["ref"])
             cls = type(s._g[idx]).__name__
             phs = list(a["conf"]["v"])
             if cls in ("PLoad", "ILoad", "RLoad"):
@@ -103,11 +151,13 @@ def build_system(states, gen, rng, sysname="sys", shared=None, first="a"):
                 first = TRICKY["a"]
         except Exception:
             pass
-        s = System(sysname, build(gen.desc("Source", first)))
+        s = System(sysname, make(gen, "Source", first))
         for st in states:
             op, a = st["act"]["op"], st["act"]["a"]
             try:
                 apply(s, op, a)
+            except GeneratorReject:
+                raise
             except Exception as e:
                 raise BuildFailure(s, op, a, e)
     return s
